@@ -147,6 +147,7 @@ type Pool struct {
 	SolverQ    map[string]int
 	SolverS    map[string]float64
 	SolverU    map[string]int
+	nonterm    int
 	violations int
 	abort      bool
 }
@@ -331,15 +332,19 @@ func (w *Worker) reportViolation(e *Exec, label, kind, msg string, m map[string]
 	if n < 3 {
 		r.Violations = append(r.Violations, v)
 	}
-	if len(r.Violations) >= 4 {
+	if len(r.Violations) >= 4 || kind == "nontermination" {
 		// enough counterexamples from this harness run: the rest of its paths is not explored
-		// (a violated check does not need to be exhaustive, and broken code can explode)
+		// (a violated check does not need to be exhaustive, and broken code can explode; a path
+		// that exhausts its budget costs minutes, so one termination candidate per run is enough)
 		r.stopped = true
 	}
 	r.mu.Unlock()
 	w.pool.mu.Lock()
 	w.pool.violations++
-	if w.pool.violations >= 24 {
+	if kind == "nontermination" {
+		w.pool.nonterm++
+	}
+	if w.pool.violations >= 24 || w.pool.nonterm >= 3 {
 		w.pool.abort = true
 	}
 	w.pool.mu.Unlock()
